@@ -11,8 +11,12 @@ VERIF = os.path.dirname(os.path.dirname(os.path.abspath(__file__)))
 PY = os.environ.get("VERIF_PYTHON", "/venv/bin/python")
 
 
-def zygote_env(hashseed="0"):
+def zygote_env(hashseed="0", cpus=None):
     env = dict(os.environ)
+    if cpus:
+        env["VERIF_FAKE_CPUS"] = str(cpus)
+    else:
+        env.pop("VERIF_FAKE_CPUS", None)
     env.update({"OPENBLAS_NUM_THREADS": "1", "OMP_NUM_THREADS": "1", "MKL_NUM_THREADS": "1",
                 "PYTHONHASHSEED": str(hashseed), "PYTHONDONTWRITEBYTECODE": "1"})
     env.setdefault("VERIF_REPO", "/repo")
@@ -20,8 +24,8 @@ def zygote_env(hashseed="0"):
 
 
 class Zygote:
-    def __init__(self, hashseed="0"):
-        self.p = subprocess.Popen([PY, "-m", "sim.zygote"], cwd=VERIF, env=zygote_env(hashseed),
+    def __init__(self, hashseed="0", cpus=None):
+        self.p = subprocess.Popen([PY, "-m", "sim.zygote"], cwd=VERIF, env=zygote_env(hashseed, cpus),
                                   stdin=subprocess.PIPE, stdout=subprocess.PIPE, stderr=subprocess.DEVNULL,
                                   text=True, bufsize=1)
         line = self.p.stdout.readline()
@@ -58,15 +62,16 @@ class Zygote:
 
 class Pool:
     """W zygotes; run(jobs, on_result) streams jobs through them (order of completion)."""
-    def __init__(self, workers=8, hashseeds=("0", )):
+    def __init__(self, workers=8, hashseeds=("0", ), cpus=None):
         self.workers = workers
         self.hashseeds = hashseeds
+        self.cpus = cpus
         self.zs = []
         errs = []
 
         def start(i):
             try:
-                self.zs.append(Zygote(self.hashseeds[i % len(self.hashseeds)]))
+                self.zs.append(Zygote(self.hashseeds[i % len(self.hashseeds)], self.cpus))
             except Exception as e:  # noqa
                 errs.append(e)
 
